@@ -29,7 +29,10 @@ REAL_VS_STUB = {"real": ["pddl_plus_parser.lisp_parsers.PDDLTokenizer (file and 
                          "real files on tmpfs"],
                 "stub": ["the writer that produces the file (simulated, fault-injecting)", "builtins.open seam"]}
 
-ATOMS = ["a", "b", "define", ":init", "?x", "-", "obj1", "=", "3.5", "-2", "p_q", "at-robby", "1e3", "not"]
+ATOMS = ["a", "b", "define", ":init", "?x", "-", "obj1", "=", "3.5", "-2", "p_q", "at-robby", "1e3", "not",
+         # non-ASCII tokens, including letters whose case folding differs from lower-casing (ß, final sigma, long s,
+         # ligatures): lower-casing must keep them distinct from their look-alikes
+         "straße", "strasse", "maß", "mass", "ςx", "σx", "ﬁn", "fin", "ſt", "st", "é", "ü1"]
 
 
 def gen_tree(t, depth, budget):
@@ -81,7 +84,7 @@ def layout(text, t):
                 flags.add("crlf")
             out.append(s)
         else:
-            if upper and t.chance(1, 3):
+            if upper and ch.isascii() and t.chance(1, 3):
                 flags.add("case")
                 out.append(ch.upper())
             else:
